@@ -6,7 +6,7 @@ from typing import List, Optional, Tuple
 
 from ..absint import NONE, AnyIndex, Const, Inst, Interp, Tup
 from ..astutil import Defs
-from ..core import AnalysisError, attr_chain, kwarg, short, walk_no_nested, walk_stmts
+from ..core import AnalysisError, attr_chain, cshort, kwarg, short, walk_no_nested, walk_stmts
 from ..effects import MUTATING_BUILTIN
 from . import nameres
 from .joinrules import content_writes
@@ -102,6 +102,7 @@ def _table(ctx) -> None:
     for s in walk_stmts(f.body):
         if isinstance(s, ast.For) and sorts and any(n is sorts[0] for n in walk_no_nested(s)):
             key_loop = s
+    mm = None
     if key_loop is None:
         problems.append("the sort is not inside a loop over the keys")
     else:
@@ -131,9 +132,10 @@ def _table(ctx) -> None:
                 dd = {s.targets[0].id: short(s.value) for s in key_loop.body if isinstance(s, ast.Assign) and isinstance(s.targets[0], ast.Name)}
                 defaults = {a.arg: short(dv) for a, dv in zip(fn.args.args[-len(fn.args.defaults):], fn.args.defaults)} if fn.args.defaults else {}
                 data_def = defaults.get("data")
+                data_def = defaults.get(fn.args.args[1].arg) if len(fn.args.args) > 1 else None
                 if not (data_def and dd.get(data_def) == f"{colv}._underlying"):
                     problems.append("the key function does not read THIS key column's storage (bound per iteration)")
-                if defaults.get("rev") != revv:
+                if revv not in defaults.values():
                     problems.append("the key function's rev is not this key's own flag (bound per iteration)")
             # resolved / rev_flags provenance
             rs = [s for s in walk_stmts(f.body) if isinstance(s, ast.Expr) and short(s.value).startswith(f"{resolved}.append(")]
@@ -146,25 +148,45 @@ def _table(ctx) -> None:
            message="; ".join(problems))
     # ---- d: flags
     problems = []
-    rf = [s for s in walk_stmts(f.body) if isinstance(s, ast.Assign) and short(s.targets[0]) == "rev_flags"]
-    texts = sorted(short(s.value) for s in rf)
-    if texts != sorted(["[reverse] * len(keys)", "[bool(x) for x in reverse]"]):
-        problems.append(f"reverse flags are built as {texts}")
-    guard = [s for s in walk_stmts(f.body) if isinstance(s, ast.If) and short(s.test) == "len(reverse) != len(keys)"
-             and any(isinstance(b, ast.Raise) for b in s.body)]
+    revs = mm.group(2) if (key_loop is not None and mm) else None
+    resolved_v = mm.group(1) if (key_loop is not None and mm) else None
+    rev_param = f.params[2] if len(f.params) > 2 else "reverse"
+    # keys variable: the list the resolution loop ranges over
+    res_loop = None
+    for s_ in walk_stmts(f.body):
+        if isinstance(s_, ast.For) and isinstance(s_.iter, ast.Name) and resolved_v and any(
+                isinstance(n, ast.Call) and short(n.func) == f"{resolved_v}.append" for n in walk_no_nested(s_)):
+            res_loop = s_
+    keysv = res_loop.iter.id if res_loop is not None else "?"
+    nrv = [n for n, lst in d.assigns.items() if any(v is not None and short(v) == "len(self)" for v, _, _ in lst)]
+    nrv = nrv[0] if nrv else "?"
+    rf = [s_ for s_ in walk_stmts(f.body) if isinstance(s_, ast.Assign) and revs and short(s_.targets[0]) == revs]
+    texts = sorted(cshort(s_.value) for s_ in rf)
+    if texts != sorted([f"[{rev_param}] * len({keysv})", f"[bool(_0) for _0 in {rev_param}]"]):
+        problems.append(f"reverse flags are built as {texts}; expected one bool per key")
+    guard = [s_ for s_ in walk_stmts(f.body) if isinstance(s_, ast.If) and short(s_.test) == f"len({rev_param}) != len({keysv})"
+             and any(isinstance(b_, ast.Raise) for b_ in s_.body)]
     if not guard:
         problems.append("a per-key reverse list is not length-checked against the keys")
-    loop = [s for s in walk_stmts(f.body) if isinstance(s, ast.For) and short(s.iter) == "keys"]
-    if not loop or not any(short(x.value) == "self._resolve_column(spec)" for x in loop[0].body if isinstance(x, ast.Assign)):
+    if res_loop is None or not isinstance(res_loop.target, ast.Name):
         problems.append("keys are not resolved one by one, in order, through _resolve_column")
     else:
-        lg = [x for x in loop[0].body if isinstance(x, ast.If) and "len(col) != nrows" in short(x.test)]
-        if not lg:
-            problems.append("sort keys are not length-checked against the table")
+        spec = res_loop.target.id
+        rcs = [x for x in res_loop.body if isinstance(x, ast.Assign) and short(x.value) == f"self._resolve_column({spec})"]
+        if not rcs:
+            problems.append("keys are not resolved one by one, in order, through _resolve_column")
+        else:
+            cv = rcs[0].targets[0].id
+            lg = [x for x in res_loop.body if isinstance(x, ast.If) and short(x.test) == f"len({cv}) != {nrv}"]
+            if not lg:
+                problems.append("sort keys are not length-checked against the table")
+            if not any(short(x) == f"{resolved_v}.append({cv})" for x in res_loop.body):
+                problems.append("the resolved key is not recorded in key order")
     ctx.ob("d.flags", f, "flags", not problems, "one bool per key, same position as its key", f.node, message="; ".join(problems))
     # empty table branch keeps columns and names
-    emp = [s for s in f.body if isinstance(s, ast.If) and short(s.test) == "nrows == 0"]
-    ok = bool(emp) and "Vector([], name=col._name) for col in self._underlying" in short(emp[0], 400)
+    emp = [s_ for s_ in f.body if isinstance(s_, ast.If) and short(s_.test) == f"{nrv} == 0"]
+    ok = bool(emp) and any("Vector([], name=_0._name) for _0 in self._underlying" in cshort(n) for n in walk_no_nested(emp[0])
+                           if isinstance(n, (ast.ListComp, ast.GeneratorExp)))
     ctx.ob("d.flags", f, "empty", ok, "an empty table keeps its columns and names", emp[0] if emp else f.node,
            message="sorting an empty table does not keep its columns / names")
 
